@@ -391,6 +391,17 @@ def r19_8(ctx: Ctx) -> None:
     ctx.check(in_with or in_finally, "R19.8", f, ex[0], "`x` closes the archive after extraction (finally / with)",
               "run_extract never closes the archive: close() is what waits for the progress reporter, so with --verbose the lines still queued when extractall() returns are lost "
               "at interpreter exit (1500 members extracted, 817 listed, exit status 0)", construct="run_extract close")
+    # status 0 of `x` means: extractall ran to its end - every `return 0` is reached only through an extractall call, there is one, and with
+    # --verbose the callback is handed over
+    cfg = cfg_of(f.node)
+    zeros = [r for r in walk(f.node) if isinstance(r, ast.Return) and isinstance(r.value, ast.Constant) and r.value.value == 0 and not isinstance(r.value.value, bool)]
+    ctx.check(bool(zeros) and all(not cfg.reaches(cfg.entry, q.node_for(f, r), avoid=[q.node_for(f, e) for e in ex]) for r in zeros), "R19.8", f, zeros[0] if zeros else f.node,
+              "`x` returns 0 only after extractall() returned", "run_extract can return 0 on a path that never called extractall() (or never returns 0 at all): `x` reports success without "
+              "extracting, or failure after a successful extraction", construct="run_extract status 0")
+    for e in ex:
+        val = next((k.value for k in e.keywords if k.arg == "callback"), None)
+        ctx.check(val is not None and not (isinstance(val, ast.Constant) and val.value is None), "R19.8", f, e, "`x` hands its progress callback to extractall",
+                  f"`{norm(e)}` does not pass the callback built for --verbose: `x --verbose` lists nothing", construct="run_extract drops the callback")
     cb = ctx.prog.cls("CliExtractCallback", "cli")
     n = 0
     for m in cb.methods.values():
